@@ -1,11 +1,15 @@
 //! C03 — to-be-signed bytes are exactly RFC 8152 Sig_structure.
 
 use crate::cbor::hex_trunc;
+use crate::cbor::StyleOpts;
+use crate::gen::{gen_msg, Faults};
+use crate::model::{m_msg, Kind, MCtx};
+use crate::props::common::styled;
 use crate::props::structs::*;
 use crate::run::{hash_bytes, no_exh_case, no_exh_count, CaseResult, Ctx, Property};
 use crate::tape::Gen;
 use coset::{
-    sig_structure_data, CoseSign, CoseSign1, CoseSign1Builder, CoseSignBuilder, CoseSignature, Header, SignatureContext,
+    sig_structure_data, CborSerializable, CoseSign, CoseSign1, CoseSign1Builder, CoseSignBuilder, CoseSignature, Header, SignatureContext,
 };
 use std::cell::RefCell;
 
@@ -276,11 +280,59 @@ fn general_case(g: &mut Gen, ctx: &mut Ctx) -> CaseResult {
     Ok(())
 }
 
+/// A whole COSE_Sign1 / COSE_Sign decoded from styled wire bytes (any unprotected headers,
+/// counter-signatures, several signers), then every signature verified.
+fn wire_carrier_case(g: &mut Gen, ctx: &mut Ctx) -> CaseResult {
+    let kind = *g.pick(&[Kind::Sign1, Kind::Sign]);
+    let depth = g.below(3);
+    let item = gen_msg(g, kind, &mut Faults::none(), depth);
+    let (bytes, enc) = styled(&item, g, StyleOpts::ALL);
+    let mut mc = MCtx::default();
+    let m = match m_msg(kind, &enc, &mut mc) {
+        Ok(m) => m,
+        Err(_) => return Ok(()),
+    };
+    let aad = gen_class_bytes(g);
+    let detached = gen_class_bytes(g);
+    let w = m.protected.wire.clone().unwrap_or_default();
+    ctx.classf(format!("wire-carrier:{}", kind.name()));
+    ctx.nontrivial(hash_bytes(&[&b"w"[..], &bytes, &aad].concat()));
+    ctx.sample_with(|| format!("whole {} decoded from {} then verified, aad {}B", kind.name(), hex_trunc(&bytes, 48), aad.len()));
+    let payload: &[u8] = m.content.as_deref().unwrap_or(&detached);
+    if kind == Kind::Sign1 {
+        let v = CoseSign1::from_slice(&bytes).map_err(|e| format!("valid COSE_Sign1 rejected: {:?}", e))?;
+        let mut seen = (vec![], vec![]);
+        let f = |s: &[u8], d: &[u8]| -> Result<(), u8> {
+            seen = (s.to_vec(), d.to_vec());
+            Ok(())
+        };
+        let _ = if v.payload.is_some() { v.verify_signature(&aad, f) } else { v.verify_detached_signature(&detached, &aad, f) };
+        ensure!(seen.0 == m.auth, "whole COSE_Sign1: verifier handed a signature other than the received one");
+        expect_eq("whole COSE_Sign1: verify", &seen.1, &ref_sig_structure("Signature1", &w, None, &aad, payload))
+    } else {
+        let v = match CoseSign::from_slice(&bytes) { Ok(v) => v, Err(e) => { return if mc.unspecified { Ok(()) } else { Err(format!("valid COSE_Sign rejected: {:?}", e)) } } };
+        ensure!(v.signatures.len() == m.nested.len(), "signer count differs from the wire");
+        for (i, sm) in m.nested.iter().enumerate() {
+            let ws = sm.protected.wire.clone().unwrap_or_default();
+            let mut seen = (vec![], vec![]);
+            let f = |s: &[u8], d: &[u8]| -> Result<(), u8> {
+                seen = (s.to_vec(), d.to_vec());
+                Ok(())
+            };
+            let _ = if v.payload.is_some() { v.verify_signature(i, &aad, f) } else { v.verify_detached_signature(i, &detached, &aad, f) };
+            ensure!(seen.0 == sm.auth, "whole COSE_Sign: signer {}: verifier handed another signature", i);
+            expect_eq(&format!("whole COSE_Sign: verify signer {}", i), &seen.1, &ref_sig_structure("Signature", &w, Some(&ws), &aad, payload))?;
+        }
+        Ok(())
+    }
+}
+
 fn case(g: &mut Gen, ctx: &mut Ctx) -> CaseResult {
-    match g.weighted(&[4, 4, 3]) {
+    match g.weighted(&[4, 4, 3, 3]) {
         0 => sign1_case(g, ctx),
         1 => sign_case(g, ctx),
-        _ => general_case(g, ctx),
+        2 => general_case(g, ctx),
+        _ => wire_carrier_case(g, ctx),
     }
 }
 
